@@ -29,6 +29,7 @@ RULES = [
     ("a", "/a/<any(xx,y):k>", "any"),
     ("m", "/m/<x>/<int:n>", "str+int"),
     ("l", "/l/<string(length=2):x>", "str2"),
+    ("h", "/h/<int(fixed_digits=4,signed=True):n>", "sint4"),
 ]
 
 
@@ -59,6 +60,9 @@ def body_build_match(I, X, ep="s", script="/", external=False, n=2):
         values["n"] = X.int("n", 0, 999)
     if kind == "sint":
         values["n"] = X.int("n", -9999, 9999)
+    if kind == "sint4":
+        # canonical domain: what fits into four characters including the sign
+        values["n"] = X.int("n", -999, 9999)
     if kind == "path":
         p = X.str("p", n, minlen=n, maxcp=0x7E)
         X.assume(pall_in(p, [(0x20, 0x7E)]))
@@ -104,7 +108,7 @@ def body_match_build(I, X, n=4):
     vals = dict(I.dict_items(args))
     url = I.call(adapter.build, (ep,), {"values": vals})
     kind = [k for e, r, k in RULES if e == ep][0]
-    if kind in ("int", "str+int", "sint"):
+    if kind in ("int", "str+int", "sint", "sint4"):
         # leading zeros are not canonical for plain ints: the inverse law is stated for the
         # converter's canonical domain
         return True, {"outcome": "non-canonical domain", "ep": ep}
@@ -120,7 +124,7 @@ def obligations(tier, seed):
             for external in (False, True):
                 if quick and script != "/" and external:
                     continue
-                ns = [0] if kind in ("int", "int3", "sint", "any", "str2") else (range(1, 4) if quick else range(1, 6))
+                ns = [0] if kind in ("int", "int3", "sint", "sint4", "any", "str2") else (range(1, 4) if quick else range(1, 6))
                 if kind == "path":
                     ns = range(1, 5) if quick else range(1, 7)
                 for n in ns:
